@@ -424,12 +424,12 @@ class Facts:
                 out |= self.hosts_of(g, _depth + 1)
         return out or {root.name}
 
-    def inlined(self, fn, light=True):
+    def inlined(self, fn, light=True, also_types=()):
         """fn with its type's private, non-anchor helper methods virtually inlined (cached); light=False keeps calls to
-        public methods of small record types as calls"""
+        public methods of small record types as calls; also_types names record types whose methods are inlined regardless"""
         if fn is None:
             return None
-        cache = self.__dict__.setdefault("_inl_cache" if light else "_inl_cache_nolight", {})
+        cache = self.__dict__.setdefault(("_inl_cache" if light else "_inl_cache_nolight") + ("|" + ",".join(sorted(also_types)) if also_types else ""), {})
         if "_anchor_ids_done" not in self.__dict__:
             try:
                 import enginerules
@@ -437,7 +437,7 @@ class Facts:
             except Exception:
                 self.__dict__["_anchor_ids_done"] = True
         if fn.id not in cache:
-            cache[fn.id] = inline_private_helpers(self, fn, light=light)
+            cache[fn.id] = inline_private_helpers(self, fn, light=light, also_types=frozenset(also_types))
         return cache[fn.id]
 
     # ---- closures by type string
@@ -638,7 +638,7 @@ def _subst_generics(x, gmap, key=None):
     return x
 
 
-def inline_private_helpers(F, fn, depth=2, max_blocks=4000, light=True):
+def inline_private_helpers(F, fn, depth=2, max_blocks=4000, light=True, also_types=frozenset()):
     """A copy of `fn` in which calls to *private, non-anchor methods / associated functions of the same type* are replaced by
     the callee's body (locals renumbered, parameters assigned from the arguments, `return` turned into an assignment of the
     destination plus a jump to the call's successor).  Extract-method refactorings inside a type therefore leave the
@@ -697,10 +697,11 @@ def inline_private_helpers(F, fn, depth=2, max_blocks=4000, light=True):
                 continue
             if g is None or not g.blocks or g.id == fn.id or g.kind not in ("method", "fn"):
                 continue
-            if g.j.get("trait") or g.j.get("in_trait") or (g.j.get("method") or g.name.split("::")[-1]) in anchors \
-                    or g.id in getattr(F, "_anchor_ids", ()):
-                continue
             g_ty = (g.j.get("self_ty") or "").split("<")[0]
+            if g.j.get("trait") or g.j.get("in_trait") or g.id in getattr(F, "_anchor_ids", ()):
+                continue
+            if (g.j.get("method") or g.name.split("::")[-1]) in anchors and g_ty not in also_types:
+                continue        # (a name some rule looks for stays a call - except on a type the caller asked to open up)
             same_type = g_ty == base_ty
             # a non-public function or method written in the same file as its caller (module privacy: only this module can call
             # it) - a free helper, or a private method put on another type of the module (`ConfigDatabase::record_creation_config`)
@@ -708,7 +709,7 @@ def inline_private_helpers(F, fn, depth=2, max_blocks=4000, light=True):
             private_helper = (same_type or same_file_free_fn) and (g.j.get("vis") or "") != "Public"
             # methods of small record types (not the engine, the database struct or a table type), whatever their visibility:
             # logic moved onto the record it concerns (`info.require_next_tx(..)`) is still the caller's logic
-            light_method = light and bool(g_ty) and g_ty not in heavy_types(F) and len(g.blocks) <= 120
+            light_method = (light or g_ty in also_types) and bool(g_ty) and g_ty not in heavy_types(F) and len(g.blocks) <= 120
             if not (private_helper or light_method):
                 continue
             if g.name in inlined and _round > 0 and any(x == g.name for x in inlined[-50:]) and len(inlined) > 200:
@@ -724,11 +725,35 @@ def inline_private_helpers(F, fn, depth=2, max_blocks=4000, light=True):
             # is the helper's Result handed on (returned, or consumed by `?`) - then its error exits are error exits of the caller
             propagated = dest["l"] == 0 and not dest.get("p")
             if not propagated and not dest.get("p"):
-                for ob in blocks:
-                    ot = ob["term"]
-                    if ot["k"] == "call" and ((ot["func"].get("fn") or {}).get("path") or "").endswith("Try::branch") \
-                            and any(a.get("l") == dest["l"] and not a.get("p") for a in ot.get("args", [])):
-                        propagated = True
+                # handed on: consumed by `?`, or mapped by a Result adapter (`.map(|_| ())`, `.map_err(..)`) / moved into a
+                # local that is itself handed on (the return slot of an enclosing inlined helper, the return place)
+                frontier, seen_l = {dest["l"]}, set()
+                rets_known = {0} | set(j.get("ret_locals", []))
+                for _ in range(6):
+                    nxt = set()
+                    for l_ in frontier:
+                        if l_ in seen_l:
+                            continue
+                        seen_l.add(l_)
+                        if l_ in rets_known:
+                            propagated = True
+                        for ob in blocks:
+                            if ob.get("cleanup"):
+                                continue
+                            for os_ in ob["stmts"]:
+                                if os_["k"] == "assign" and os_["rv"]["k"] == "use" and os_["rv"]["ops"][0].get("l") == l_ and not os_["rv"]["ops"][0].get("p") \
+                                        and not os_["lhs"].get("p"):
+                                    nxt.add(os_["lhs"]["l"])
+                            ot = ob["term"]
+                            if ot["k"] == "call" and any(a.get("l") == l_ and not a.get("p") for a in ot.get("args", [])):
+                                op_ = ((ot["func"].get("fn") or {}).get("path") or "")
+                                if op_.endswith("Try::branch"):
+                                    propagated = True
+                                elif op_.split("::")[-1] in ("map", "map_err", "and_then", "or_else", "into", "from") and "Result" in op_:
+                                    nxt.add(ot["dest"]["l"])
+                    frontier = nxt
+                    if propagated or not frontier:
+                        break
             if propagated:
                 j.setdefault("ret_locals", []).append(off_l)
             # a generic helper (`skip::<T>`) is inlined with its type parameters replaced by the call site's arguments, so a
